@@ -914,6 +914,8 @@ func (i valueImporter) importValue(value cadence.Value, expectedType sema.Type) 
 		return nil, errors.NewDefaultUserError("cannot import contract")
 	case cadence.Function:
 		return nil, errors.NewDefaultUserError("cannot import function")
+	case cadence.Attachment:
+		return nil, errors.NewDefaultUserError("cannot import attachment")
 	default:
 		// This means the implementation has unhandled types.
 		// Hence, return an internal error
